@@ -484,14 +484,14 @@ def run(tier: str, seed: int, workers: int):
     gev = G_EVENTS if tier == "quick" else G_EVENTS_T
     for e1 in gev:
         for e2 in gev:
-            shards.append(("e2g", tier, 5 if tier == "quick" else 6, (e1, e2)))
+            shards.append(("e2g", tier, 5, (e1, e2)))  # thorough: same depth, larger alphabet
     if seed:
         import random
 
         random.Random(seed).shuffle(shards)
     acc = pmap_acc(_dispatch, shards, workers)
     meta = {
-        "rule": "E2c (groups): every sequence to depth 5 (quick) / 6 over {actor a / b proposes for component group 1 or 2, actor c for "
+        "rule": "E2c (groups): every sequence to depth 5 over {actor a / b proposes for component group 1 or 2, actor c for "
         "group 1, actor b replaces its proposal by one with inverted bounds, +30.25 s, +31 s (maximum proposal age 60.75 s), a system-bounds "
         "update to one of 3 shapes (two differ only in the exclusion zone) after which every group is re-evaluated without a proposal} on ONE "
         "Matryoshka, without state merging: after every proposal and bounds update the stored target, and after every event the recomputed "
